@@ -125,6 +125,23 @@ impl Repo {
             "tag" => { self.git(&["tag", &text()], None)?; }
             "atag" => { let t = text(); self.git(&["tag", "-a", &t, "-m", &t], Some(BASE_TIME + 777))?; }
             "deltag" => { self.git(&["tag", "-d", &text()], None)?; }
+            "reset" => {
+                let c = arg.as_u64().unwrap() as usize;
+                let h = self.hashes[c - 1].clone();
+                self.git(&["reset", "-q", "--hard", &h], None)?;
+            }
+            "amend" => {
+                let c = self.hashes.len() + 1;
+                let t = self.ctime(c);
+                let before = self.head_hash();
+                self.git(&["commit", "--amend", "--allow-empty", "-q", "-m", &format!("c{c}")], Some(t))?;
+                if self.head_hash() == before {
+                    return Err("amend made no new commit".into());
+                }
+                self.record_head();
+            }
+            "movetag" => { self.git(&["tag", "-f", &text()], None)?; }
+            "moveatag" => { let t = text(); self.git(&["tag", "-f", "-a", &t, "-m", &t], Some(BASE_TIME + 778))?; }
             other => return Err(format!("unknown op {other}")),
         }
         Ok(())
@@ -331,7 +348,7 @@ pub fn record(args: &[String]) {
         let steps = rng.gen_range(8..26);
         for _ in 0..steps {
             let n = repo.hashes.len();
-            let (op, arg): (&str, Value) = match rng.gen_range(0..12) {
+            let (op, arg): (&str, Value) = match rng.gen_range(0..15) {
                 0..=2 if n < 12 => ("commit", json!([])),
                 3 => { let b = BRANCHES[rng.gen_range(0..BRANCHES.len())]; if branches.iter().any(|x| x == b) { continue } ("branch", json!(b)) }
                 4 => ("checkout", json!(branches[rng.gen_range(0..branches.len())])),
@@ -340,6 +357,10 @@ pub fn record(args: &[String]) {
                 7 if n < 12 => ("merge", json!(branches[rng.gen_range(0..branches.len())])),
                 8 | 9 => { let t = TAGS[rng.gen_range(0..TAGS.len())]; if tags.iter().any(|x| x == t) { continue } (if rng.gen_bool(0.5) { "tag" } else { "atag" }, to_cps(t)) }
                 10 if !tags.is_empty() => ("deltag", to_cps(&tags[rng.gen_range(0..tags.len())])),
+                11 => continue,
+                12 if n > 1 => ("reset", json!(rng.gen_range(1..=n))),
+                13 if n < 12 => ("amend", json!([])),
+                14 if !tags.is_empty() => (if rng.gen_bool(0.5) { "movetag" } else { "moveatag" }, to_cps(&tags[rng.gen_range(0..tags.len())])),
                 _ => continue,
             };
             // "merge" must make a commit, "mergeff" must move HEAD: otherwise git did nothing
@@ -349,8 +370,8 @@ pub fn record(args: &[String]) {
                 continue;
             }
             let after = repo.git(&["rev-parse", "HEAD"], None).unwrap_or_default();
-            if (op == "mergeff" || op == "checkout" || op == "detach") && after == before.1 && op == "mergeff" {
-                continue; // already up to date: nothing happened
+            if (op == "mergeff" || op == "reset") && after == before.1 {
+                continue; // already up to date / reset to the current commit: nothing happened
             }
             match op {
                 "branch" => branches.push(arg.as_str().unwrap().to_string()),
